@@ -8,7 +8,6 @@ Everything in REFERENCE below is typed in from the Core specification
 """
 from __future__ import annotations
 
-import asyncio
 import os
 import shutil
 import tempfile
@@ -89,9 +88,37 @@ SMP_CODE_NAMES = {
 METHOD_NAMES = {0: 'JW', 1: 'NC', 2: 'PK', 3: 'OOB', 4: 'CTKD'}
 
 
+class UserGate:
+    """The moment a user reacts to a prompt is an event of its own channel ('user', side), so that the
+    schedule explorer can delay it behind protocol messages (a slow user); stock order = one loop hop."""
+
+    def __init__(self, loop, side):
+        self.loop = loop
+        self.side = side
+
+    def answer(self, fut):
+        if not fut.done():
+            fut.set_result(None)
+
+    async def wait(self):
+        fut = self.loop.create_future()
+        self.loop.call_soon(self.answer, fut)
+        await fut
+
+
 class Shared:
     def __init__(self, loop):
         self.displayed = {'i': loop.create_future(), 'r': loop.create_future()}
+        self.gate = {'i': UserGate(loop, 'i'), 'r': UserGate(loop, 'r')}
+        base = loop.classify
+
+        def classify(handle):
+            s = getattr(handle._callback, '__self__', None)
+            if isinstance(s, UserGate):
+                return ('user', s.side)
+            return base(handle)
+
+        loop.classify = classify
 
 
 def make_delegate(which, cfg, answers, shared, peer_io, log):
@@ -99,10 +126,12 @@ def make_delegate(which, cfg, answers, shared, peer_io, log):
     from bumble.pairing import PairingDelegate
 
     other = 'r' if which == 'i' else 'i'
+    gate = shared.gate[which]
 
     class Scripted(PairingDelegate):
         async def accept(self):
             a = answers.get('accept', 'yes')
+            await gate.wait()
             log.append(('accept', a))
             if a == 'raise':
                 raise RuntimeError('scripted delegate failure')
@@ -110,11 +139,13 @@ def make_delegate(which, cfg, answers, shared, peer_io, log):
 
         async def confirm(self, auto=False):
             a = answers.get('confirm', 'yes')
+            await gate.wait()
             log.append(('confirm', a))
             return a == 'yes'
 
         async def compare_numbers(self, number, digits):
             a = answers.get('compare', 'yes')
+            await gate.wait()
             log.append(('compare', number, a))
             return a == 'yes'
 
@@ -122,6 +153,7 @@ def make_delegate(which, cfg, answers, shared, peer_io, log):
             a = answers.get('number', 'right')
             log.append(('input', a))
             if a == 'none':
+                await gate.wait()
                 return None
             # the user reads the number off the peer's display; when both devices only have a
             # keyboard the two users have agreed on a number beforehand
@@ -129,6 +161,7 @@ def make_delegate(which, cfg, answers, shared, peer_io, log):
                 n = BOTH_INPUT_NUMBER
             else:
                 n = await shared.displayed[other]
+            await gate.wait()
             if a.startswith('wrong'):
                 n ^= 1 << int(a[5:])
             return n
@@ -175,17 +208,6 @@ def keys_to_json(keys):
         if k is not None:
             out[n] = key_to_json(k)
     return out
-
-
-class Run:
-    """One execution.  Attributes are the raw observations the oracle reads."""
-
-    def __init__(self, case, seed=0):
-        self.case = case
-        self.seed = seed
-        self.viol = []
-        self.obs = {}
-        self.info = {}
 
 
 def connect(w, central, peripheral, addr):
